@@ -30,6 +30,7 @@ type Claims struct {
 	Assumptions []string
 	Level       string
 	Bounded     []string // names of bounded stand-ins (run on every check)
+	HarnessRace bool     // run the harness under the Go race detector
 	OnlyKinds   []string // when set, only obligations of these kinds are claimed
 	Notes       []string
 }
@@ -70,6 +71,8 @@ func readClaims(path string) (*Claims, error) {
 			c.Assumptions = append(c.Assumptions, rest)
 		case "level":
 			c.Level = rest
+		case "harness-race":
+			c.HarnessRace = true
 		case "only-kinds":
 			// restrict the claimed set to obligations of these kinds (prefix match)
 			for _, k := range strings.Split(rest, ",") {
@@ -159,6 +162,11 @@ func runHarness(repo, harnessDir, pkgRel, runPat, tier string, seed int, extraEn
 		timeout = "900s"
 	}
 	args := []string{"test", "-overlay", ovf, "-vet=off", "-count=1", "-timeout", timeout}
+	for _, e := range extraEnv {
+		if e == "VERIF_RACE=1" {
+			args = append(args, "-race")
+		}
+	}
 	if runPat != "" {
 		args = append(args, "-run", runPat)
 	}
@@ -169,7 +177,50 @@ func runHarness(repo, harnessDir, pkgRel, runPat, tier string, seed int, extraEn
 		"VERIF_TIER="+tier, "VERIF_SEED="+strconv.Itoa(seed), "GOCACHE="+goCache())
 	cmd.Env = append(cmd.Env, extraEnv...)
 	out, err := cmd.CombinedOutput()
-	return err == nil, string(out), time.Since(start).Seconds()
+	return err == nil, raceLines(string(out)), time.Since(start).Seconds()
+}
+
+var raceTestRe = regexp.MustCompile(`TestVerif[A-Za-z0-9]+`)
+
+// raceLines appends one FAILING-INPUT line per data-race report of the Go
+// race detector: "data race between <function> and <function>".
+func raceLines(out string) string {
+	if !strings.Contains(out, "WARNING: DATA RACE") {
+		return out
+	}
+	ls := strings.Split(out, "\n")
+	seen := map[string]bool{}
+	var extra []string
+	for i := 0; i < len(ls); i++ {
+		if !strings.HasPrefix(ls[i], "WARNING: DATA RACE") {
+			continue
+		}
+		var fns []string
+		for j := i + 1; j < len(ls) && !strings.HasPrefix(ls[j], "=================="); j++ {
+			t := strings.TrimSpace(ls[j])
+			if (strings.HasPrefix(t, "Read at") || strings.HasPrefix(t, "Write at") || strings.HasPrefix(t, "Previous read at") || strings.HasPrefix(t, "Previous write at")) && j+1 < len(ls) {
+				f := strings.TrimSpace(ls[j+1])
+				if k := strings.LastIndex(f, "/"); k >= 0 {
+					f = f[k+1:]
+				}
+				fns = append(fns, strings.TrimSuffix(f, "()"))
+			}
+		}
+		sort.Strings(fns)
+		test := ""
+		for j := i + 1; j < len(ls) && !strings.HasPrefix(ls[j], "=================="); j++ {
+			if m := raceTestRe.FindString(ls[j]); m != "" {
+				test = m
+				break
+			}
+		}
+		line := "FAILING-INPUT data race in " + test + " between " + strings.Join(fns, " and ")
+		if !seen[line] {
+			seen[line] = true
+			extra = append(extra, line)
+		}
+	}
+	return out + "\n" + strings.Join(extra, "\n") + "\n"
 }
 
 func goCache() string {
@@ -317,7 +368,11 @@ func cmdCheck(args []string) int {
 			return
 		}
 		harnessRan = true
-		harnessOK, harnessOut, harnessT = runHarness(*repo, filepath.Join(root, "replay", claims.Harness), claims.HarnessPkg, claims.HarnessRun, *tier, seed, nil)
+		var hEnv []string
+		if claims.HarnessRace {
+			hEnv = append(hEnv, "VERIF_RACE=1")
+		}
+		harnessOK, harnessOut, harnessT = runHarness(*repo, filepath.Join(root, "replay", claims.Harness), claims.HarnessPkg, claims.HarnessRun, *tier, seed, hEnv)
 		if !harnessOK {
 			// failing inputs that are listed known findings do not count; anything else does
 			kfs := readKnown(filepath.Join(root, "known_findings.jsonl"))
